@@ -12,6 +12,7 @@ import Nlmodel.Proofs.Lemmas.SimHValidate
 import Nlmodel.Proofs.Lemmas.ResolveHeap
 import Nlmodel.Proofs.Lemmas.ResolveFn
 import Nlmodel.Proofs.Lemmas.Resolve6Top
+import Nlmodel.Proofs.Lemmas.Resolve7Top
 open Nl
 
 /-- character classes: loaded from the table dumped by the harness from Rust's std
@@ -177,8 +178,10 @@ def handle (cc : CharClass) (line : String) : String :=
           if SimF.srcTop ast then "proved-r1"
           else if SimH.inSourceH ast then "proved-heap-r1"
           else if Sim6.src6Top ast then "proved-heapcalls-r1"
+          else if Sim7.src7Top ast then "proved-nested-r1"
           else if SimF.inFragment r then "proved" else if SimH.inFragmentH r then "proved-heap"
-          else if Sim6.inFragment6 r then "proved-heapcalls" else "outside"
+          else if Sim6.inFragment6 r then "proved-heapcalls"
+          else if Sim7.inFragment7 r then "proved-nested" else "outside"
     | none => "bad-hex"
   | _ => "bad-request"
 
